@@ -19,6 +19,7 @@ type Profile struct {
 	Crash                               int
 	EpAdd, EpRemove                     int
 	Start                               int
+	Forge                               int // a datagram about the receiver itself (stale echo / forged)
 	Keys                                int // size of the key pool per node
 	MaxVal                              int // maximum value length
 	MaxInflight                         int
@@ -139,6 +140,7 @@ func (s *Sim) RandomStep(p *Profile) bool {
 		{p.Tick, "tick"}, {p.Liveness, "liveness"},
 		{p.SweepEarly, "sweepEarly"}, {p.SweepDue, "sweepDue"}, {p.SweepLate, "sweepLate"}, {p.SweepUpto, "sweepUpto"},
 		{p.Crash, "crash"}, {p.EpAdd, "epAdd"}, {p.EpRemove, "epRemove"}, {p.Start, "start"},
+		{p.Forge, "forge"},
 	}
 	if len(s.Inflight) > 0 {
 		cs = append(cs, choice{p.Deliver, "deliver"}, choice{p.Drop, "drop"}, choice{p.Dup, "dup"})
@@ -274,6 +276,37 @@ func (s *Sim) RandomStep(p *Profile) bool {
 			}
 			sortStrings(ks)
 			s.Apply(Action{Kind: "epRemove", Node: n.Idx, Key: ks[r.Intn(len(ks))]})
+		case "forge":
+			// a delta that names the receiver itself with versions above its own: what
+			// a peer echoes back to a node that restarted under the same id, or what an
+			// attacker sends. It must never touch the receiver's own published state.
+			o := act[r.Intn(len(act))]
+			if o.Idx == n.Idx {
+				continue
+			}
+			own := n.V.LocalNode()
+			var es []gossip.Entry
+			v := own.Version
+			for k := 0; k < 1+r.Intn(3); k++ {
+				v += uint64(1 + r.Intn(3))
+				switch r.Intn(4) {
+				case 0:
+					es = append(es, gossip.Entry{Key: gossip.VLeftKey, Version: v, Internal: true})
+				case 1:
+					es = append(es, gossip.Entry{Key: gossip.VCompactKey, Value: fmt.Sprint(v - 1), Version: v, Internal: true})
+				case 2:
+					es = append(es, gossip.Entry{Key: RandKey(r, p.Keys), Version: v, Deleted: true})
+				default:
+					es = append(es, gossip.Entry{Key: RandKey(r, p.Keys), Value: "forged", Version: v})
+				}
+			}
+			b, err := gossip.VEncodeDelta(o.ID, o.Addr, []gossip.VDeltaEntry{{ID: n.ID, Addr: n.Addr, Entries: es}}, 1<<16)
+			if err != nil {
+				continue
+			}
+			s.nextDg++
+			s.Stats["forged_self_deltas"]++
+			s.Apply(Action{Kind: "deliver", Node: n.Idx, Bytes: b, DgID: s.nextDg, Src: o.Idx})
 		case "start":
 			var cands []*SimNode
 			for _, m := range s.Nodes {
